@@ -586,6 +586,36 @@ Theorem C05_damaged_file_is_read : forall file si frames err,
            FlacReaders.Damaged.s_delivered pre ++ FlacReaders.Readers.sr_buf (fst (fst x)) = concat frames).
 Proof. exact damaged_file_is_read. Qed.
 
+(* ... and the byte reader (either byte order) and the channel reader (any channel) over the same damaged stream *)
+Theorem C05_damaged_file_is_read_bytes_channels : forall file si frames err,
+  CS.dec_stream file = Some (si, frames, CS.EndErr err) -> 1 <= A.si_channels si ->
+  exists blocks, frames = map CS.interleave_frame blocks /\
+    (forall (F : R.file) g rest ops,
+      R.f_slots F = map R.SFrame blocks ++ R.SBad g :: rest -> R.f_channels F = A.si_channels si ->
+      RS.sumlen (map R.SFrame blocks) < FlacReaders.RNum.U64 ->
+      1 <= Ser.bytes_per_sample (R.f_bps F) <= 4 ->
+      RS.no_bseek ops -> Forall RD.b_consume_ok (snd (FlacReaders.Seek.byte_run F ops)) ->
+      forall pre x post, snd (FlacReaders.Seek.byte_run F ops) = pre ++ x :: post ->
+        Forall (fun y => RD.failed (snd y) = false) pre ->
+        RS.prefix (RD.b_delivered pre ++ RD.b_shown x)
+                  (Ser.ser (R.f_endian F) (Ser.bytes_per_sample (R.f_bps F)) (concat frames)) /\
+        (forall p, snd x <> R.OPanic p) /\
+        (snd x = R.OErr ECrc16 ->
+           RD.b_delivered pre ++ R.br_buf (fst (fst x)) =
+           Ser.ser (R.f_endian F) (Ser.bytes_per_sample (R.f_bps F)) (concat frames))) /\
+    (forall (F : R.file) g rest c ops,
+      R.f_slots F = map R.SFrame blocks ++ R.SBad g :: rest -> R.f_channels F = A.si_channels si ->
+      RS.sumlen (map R.SFrame blocks) < FlacReaders.RNum.U64 ->
+      (c < N.to_nat (A.si_channels si))%nat -> R.f_rev F = R.Repaired ->
+      RS.no_cseek ops -> Forall RD.c_consume_ok (snd (FlacReaders.Seek.chan_run F ops)) ->
+      forall pre x post, snd (FlacReaders.Seek.chan_run F ops) = pre ++ x :: post ->
+        Forall (fun y => RD.failed (snd y) = false) pre ->
+        RS.prefix (RD.c_delivered c pre ++ RD.c_shown c x) (concat (map (fun b => nth c b []) blocks)) /\
+        (forall p, snd x <> R.OPanic p) /\
+        (snd x = R.OErr ECrc16 ->
+           RD.c_delivered c pre ++ RD.c_view c (fst (fst x)) = concat (map (fun b => nth c b []) blocks))).
+Proof. exact damaged_file_is_read_bytes_channels. Qed.
+
 (* C03 + C07: a file made of ANY valid frame trees — every legal syntactic alternative, not only this encoder's — behind a
    STREAMINFO and any further metadata blocks: the sample reader model delivers the RFC 9639 semantics of the frames,
    exactly once and in order, under every seek-free call history *)
@@ -654,6 +684,7 @@ Print Assumptions C01_sample_writer_lossless.
 Print Assumptions C01_written_metadata_is_read.
 Print Assumptions C01_end_to_end_samples.
 Print Assumptions C05_damaged_file_is_read.
+Print Assumptions C05_damaged_file_is_read_bytes_channels.
 Print Assumptions C01_end_to_end_encoder.
 Print Assumptions C01_end_to_end_sample_writer.
 
